@@ -121,6 +121,7 @@ type world struct {
 	hasFn    bool // routine (or state routine) present, owned by driver 1
 	curState int
 	cmpNil   bool
+	coarse   bool // the compare function identifies states n and n+10
 	// C14 machine
 	single     bool
 	needReset  bool
@@ -235,6 +236,11 @@ func (w *world) instance(rid int, ctx context.Context, st int) (err error) {
 		return nil
 	case 1:
 		core.YieldN("routinex.inst", k)
+		if w.single && c.S.PlanP(150) && ctx.Err() == nil {
+			// an ordinary failure whose error value is the context.Canceled sentinel
+			c.S.Count("probe:canceled-sentinel-result")
+			return context.Canceled
+		}
 		return uerr
 	case 2, 3, 4: // run until cancelled, then return after k more steps or after some simulated time
 		simrt.Recv1("routinex.inst-run", ctx.Done())
@@ -431,6 +437,9 @@ func (w *world) fnStep(i int) {
 			if i == 1 && st == 0 {
 				st = 1
 			}
+			if w.coarse && st != 0 && c.S.PlanP(400) {
+				st += 10
+			}
 			inv := c.Tick()
 			if c.S.PlanP(250) {
 				c.Descf("fn-driver: SwapValue(->%d)", st)
@@ -491,6 +500,9 @@ func (w *world) stateDriver(nops int) {
 	for i := 0; i < nops && !c.Failed(); i++ {
 		w.maybeGate()
 		st := 1 + c.S.Plan(3)
+		if w.coarse && c.S.PlanP(400) {
+			st += 10
+		}
 		c.Descf("state-driver: SetState(%d)", st)
 		c.S.Count("probe:concurrent-setstate")
 		inv := c.Tick()
@@ -643,6 +655,12 @@ func newWorld(c *core.Ctx, single bool) *world {
 		if c.S.PlanP(600) {
 			cmp = func(a, b int) bool { return a == b }
 			w.cmpNil = false
+			if !single && c.S.PlanP(400) {
+				// a coarser equality: states n and n+10 are equal but distinct
+				// (storing an "equal" state changes nothing, not even GetState)
+				w.coarse = true
+				cmp = func(a, b int) bool { return a%10 == b%10 }
+			}
 		}
 		w.sc = routine.NewStateRoutineContainer(cmp, opts...)
 	} else {
